@@ -1109,6 +1109,10 @@ func (k *vfChecker) judge(c *vfCase, without, with *vfObs) {
 		r.Count("list_with_several_valid_entries_"+c.Trust, 1)
 	}
 
+	if vfListedOnlyRespelled(c.TrustedProxies, c.RemoteAddr) {
+		r.Count("peer_listed_only_in_another_spelling_"+c.Transport+"_"+c.Trust, 1)
+	}
+
 	if model.Scheme != c.Base.actualScheme() && !model.FreeScheme {
 		// X-Forwarded-Proto contradicts the transport of the hop
 		r.Count("proto_header_differs_from_hop_"+c.Base.actualScheme()+"_"+c.Trust, 1)
@@ -1244,6 +1248,14 @@ var vfCfgPool = []vfCfg{ //nolint:gochecknoglobals
 	vfList("all", "0.0.0.0/0", "::/0"),
 	vfList("mapped", "::ffff:10.0.0.1"),
 	vfList("mapped", "::ffff:10.0.0.0/104"),
+	// the same address can be written in many ways; an entry is an address, not a text
+	vfList("spelled", "2001:DB8::1"),
+	vfList("spelled", "2001:0db8::0001"),
+	vfList("spelled", "2001:db8:0:0:0:0:0:1", "10.0.0.0/8"),
+	vfList("spelled", "0:0:0:0:0:0:0:1"),
+	vfList("spelled", "192.168.0.0/16", "FD00::0017"),
+	vfList("spelled", "2001:DB8:1:2::/64", "FE80::/10"),
+	vfList("spelled", "::FFFF:10.0.0.1", "0:0:0:0:0:ffff:c0a8:111"),
 	vfList("invalid", "garbage"),
 	vfList("invalid", "proxy.internal"),
 	vfList("invalid", ""),
@@ -1305,7 +1317,12 @@ func vfRandomCfg(rng *rand.Rand) vfCfg {
 	for n := 1 + rng.IntN(4); n > 0; n-- {
 		switch x := rng.IntN(10); {
 		case x < 3:
-			l = append(l, vfPick(rng, vfValidIPs))
+			ip := vfPick(rng, vfValidIPs)
+			if rng.IntN(2) == 0 {
+				ip = vfRespell(rng, ip)
+			}
+
+			l = append(l, ip)
 		case x < 7:
 			l = append(l, vfPick(rng, vfValidCIDRs))
 		default:
@@ -1320,6 +1337,130 @@ func vfRandomCfg(rng *rand.Rand) vfCfg {
 	}
 
 	return vfCfg{Kind: kind, TP: &l}
+}
+
+// vfSpellings returns other valid ways to write the single address a (never its canonical text): IPv6 with upper-case
+// digits, with leading zeros, without `::` or with `::` for one group at another place; IPv4 in the IPv4-mapped IPv6
+// forms. Every spelling is checked to parse (net and net/netip) to the very same address.
+func vfSpellings(a netip.Addr) []string {
+	if !a.IsValid() || a.Zone() != "" {
+		return nil
+	}
+
+	var cand []string
+
+	wide := netip.AddrFrom16(a.As16())
+	b := wide.As16()
+	g, z := make([]string, 8), make([]string, 8)
+
+	for i := range g {
+		v := uint16(b[2*i])<<8 | uint16(b[2*i+1])
+		g[i], z[i] = fmt.Sprintf("%x", v), fmt.Sprintf("%04x", v)
+	}
+
+	long := strings.Join(g, ":")
+
+	if a.Is4() {
+		cand = append(cand, wide.String(), strings.ToUpper(wide.String()), long, strings.ToUpper(long), "0000"+wide.String()[:7]+a.String())
+	} else {
+		cand = append(cand, strings.ToUpper(a.String()), long, strings.ToUpper(long), strings.Join(z, ":"))
+
+		// leading zeros, `::` where the canonical form has it
+		parts := strings.Split(a.String(), ":")
+
+		for i, p := range parts {
+			if p != "" && !strings.Contains(p, ".") {
+				parts[i] = strings.Repeat("0", 4-len(p)) + p
+			}
+		}
+
+		cand = append(cand, strings.Join(parts, ":"))
+
+		if strings.HasPrefix(a.String(), "::") {
+			cand = append(cand, "0000"+a.String(), "0"+strings.ToUpper(a.String()))
+		}
+
+		// `::` for a single group of zeros
+		for i := range g {
+			if g[i] != "0" {
+				continue
+			}
+
+			h := append([]string{}, g...)
+			h[i] = ""
+			s := strings.Join(h, ":")
+
+			if i == 0 {
+				s = ":" + s
+			}
+
+			if i == len(g)-1 {
+				s += ":"
+			}
+
+			cand = append(cand, s)
+		}
+	}
+
+	var out []string
+
+	seen := map[string]bool{a.String(): true}
+
+	for _, s := range cand {
+		p, err := netip.ParseAddr(s)
+		ip := net.ParseIP(s)
+
+		if seen[s] || err != nil || p.Zone() != "" || p.Unmap() != a.Unmap() || ip == nil || !ip.Equal(a.AsSlice()) {
+			continue
+		}
+
+		seen[s] = true
+
+		out = append(out, s)
+	}
+
+	return out
+}
+
+// vfRespell writes a single address in another way (the text itself if there is none).
+func vfRespell(rng *rand.Rand, ip string) string {
+	a, err := netip.ParseAddr(ip)
+	if err != nil {
+		return ip
+	}
+
+	if l := vfSpellings(a); len(l) != 0 {
+		return vfPick(rng, l)
+	}
+
+	return ip
+}
+
+// vfListedOnlyRespelled: the peer is covered by the list, but only by single-address entries which are not written
+// the way Go prints that address (no range and no canonically written entry covers it).
+func vfListedOnlyRespelled(tp *[]string, remoteAddr string) bool {
+	ap, err := netip.ParseAddrPort(remoteAddr)
+	if tp == nil || err != nil {
+		return false
+	}
+
+	peer, found := ap.Addr(), false
+
+	for _, e := range *tp {
+		if strings.Contains(e, "/") {
+			if p, err := netip.ParsePrefix(e); err == nil && p.Contains(peer) {
+				return false
+			}
+		} else if a, err := netip.ParseAddr(e); err == nil && a.Zone() == "" && a.Unmap() == peer.Unmap() {
+			if e == peer.String() {
+				return false
+			}
+
+			found = true
+		}
+	}
+
+	return found
 }
 
 // vfSignificantBits is the length of the shortest prefix whose network address is still a.
@@ -1956,6 +2097,10 @@ func vfPhaseSocket(r *core.Run, e *vfEnv, k *vfChecker, n int) {
 		vfList("invalid", "localhost"),
 		vfList("mixed", "garbage", "127.0.0.2", "::1/128"),
 		vfList("mapped", "::ffff:127.0.0.1"),
+		vfList("mapped", "::FFFF:127.0.0.1", "0:0:0:0:0:ffff:7f00:2"),
+		vfList("spelled", "0:0:0:0:0:0:0:1"),
+		vfList("spelled", "::0001", "127.0.0.2"),
+		vfList("spelled", "10.0.0.0/8", "0000::0001", "127.0.0.0/30"),
 		vfList("nested", "127.0.0.0/30", "127.0.0.0/8"),
 		vfList("nested", "127.0.0.0/8", "127.0.0.0/30"),
 		vfList("nested", "127.0.0.0", "127.0.0.0/12", "::1"),
@@ -2145,7 +2290,8 @@ func vfTestC09(t *testing.T) {
 		"IPv4-mapped, zone-scoped, unparsable) x (request line) x (every non-empty subset of the 7 forwarded headers round robin, hostile values incl. " +
 		"addresses taken from the trusted list, random name casing, repeated lines); each case is executed with and without the headers. A second phase " +
 		"sends byte-exact requests over real loopback connections from 127.x.y.z and ::1. The lists include overlapping entries (duplicates, nested ranges " +
-		"with the same or another first address, addresses of listed ranges) in both orders with peers from the set differences; a third of the requests " +
+		"with the same or another first address, addresses of listed ranges) in both orders with peers from the set differences, and single addresses " +
+		"written in other valid ways than Go prints them (upper-case digits, leading zeros, no or another `::`, IPv4-mapped forms); a third of the requests " +
 		"arrives over TLS (req.TLS set resp. a TLS listener with a throw-away certificate), the actual scheme is then https. Oracle: own reading of trusted_proxies (net/netip); untrusted => " +
 		"observation (status, rule, view, response, everything the upstream received) identical to the header-less request; trusted => model of honoured " +
 		"headers; peers whose membership depends on the reading are ambiguous (either accepted). A case is non-trivial when honouring its headers would " +
@@ -2192,6 +2338,7 @@ func vfTestC09(t *testing.T) {
 	r.Require("tls_hop_socket_cases", r.Counter("hop_https_socket"), int64(r.Pick(50, 1000)))
 	r.Require("trusted_proto_header_differs_from_tls_hop", r.Counter("proto_header_differs_from_hop_https_trusted"), int64(r.Pick(20, 400)))
 	r.Require("trusted_peers_in_set_differences", r.Counter("peer_difference_trusted"), int64(r.Pick(50, 1000)))
+	r.Require("trusted_peers_listed_only_in_another_spelling", r.Counter("peer_listed_only_in_another_spelling_handler_trusted"), int64(r.Pick(30, 500)))
 
 	if sk := r.Counter("proxy_upstream_trouble_skipped"); sk > r.Counter("cases_handler")/100 {
 		r.Inconclusive(fmt.Sprintf("proxy mode: %d cases skipped because the local upstream was not reachable", sk))
